@@ -61,6 +61,20 @@ fn check_heads(m: &Melda, known: &[DeltaId]) {
     let _ = known;
 }
 
+/// as check_heads, for a replica that has applied exactly the blocks `known`: the heads are exactly the known blocks
+/// that no known block names as parent
+fn check_heads_all(m: &Melda, known: &[DeltaId]) {
+    check_heads(m, known);
+    let mut expected: BTreeSet<DeltaId> = known.iter().cloned().collect();
+    for b in known {
+        let d = m.get_delta(b).expect("get_delta").expect("known block is not loaded");
+        for p in d.parents.clone().unwrap_or_default() {
+            expected.remove(&p);
+        }
+    }
+    assert!(m.get_anchors() == expected, "heads are not exactly the applied blocks that no applied block names as parent");
+}
+
 /// an element object that is not deleted (the root if there is none)
 fn live_element(m: &Melda) -> String {
     for id in ["a", "b", "c", "d"] {
@@ -110,7 +124,7 @@ pub fn build(k: usize, nsym: usize) -> Hist {
     }
     let mut a = a;
     a.pull(&b);
-    check_heads(&a.m, &ids);
+    check_heads_all(&a.m, &ids);
     points.push((a.m.get_anchors(), state(&a.m)));
     let mut d = a.m.read(None).expect("read merged");
     d.insert("x".to_string(), Value::from(1));
@@ -131,7 +145,7 @@ pub fn commit_graph() {
     let nsym = sym::param(1) as usize;
     let mut h = build(k, nsym);
     h.b.pull(&h.a);
-    check_heads(&h.b.m, &h.ids);
+    check_heads_all(&h.b.m, &h.ids);
     assert!(h.b.m.get_anchors() == h.a.m.get_anchors(), "heads differ between replicas holding the same blocks");
     // every block reads back identically on both replicas
     for id in &h.ids {
@@ -141,7 +155,7 @@ pub fn commit_graph() {
     }
     // and after reopening
     let ra = h.a.reopen();
-    check_heads(&ra, &h.ids);
+    check_heads_all(&ra, &h.ids);
     for id in &h.ids {
         let d1 = h.a.m.get_delta(id).unwrap().unwrap();
         let d2 = ra.get_delta(id).unwrap().expect("block missing after reopen");
@@ -191,9 +205,9 @@ pub fn meld_after_travel() {
     }
     ra.meld(&z.m).expect("meld");
     ra.refresh().expect("refresh");
-    check_heads(&ra, &ids);
+    check_heads_all(&ra, &ids);
     let fresh = h.a.reopen();
-    check_heads(&fresh, &ids);
+    check_heads_all(&fresh, &ids);
     assert!(ra.get_anchors() == fresh.get_anchors(), "heads after time travel + meld + refresh differ from a replica opened on the same storage");
     assert!(state(&ra) == state(&fresh), "state after time travel + meld + refresh differs from a replica opened on the same storage");
     sym::reach(1);
